@@ -209,3 +209,55 @@ Proof.
   split; [exact W|]. rewrite run_app. repeat split; auto.
   rewrite <- run_app. apply no_leftover_from; [apply bookkeeping_inv; auto| |]; rewrite run_app; auto.
 Qed.
+
+(* ---- re-batching: a task whose batch is re-split into sub-batches (region error, split in the
+   request's window) releases exactly what the whole task releases, provided ALL sub-batches are processed *)
+Definition task_keys (t : task) : list key :=
+  match t with TPessRb l _ => l | TCleanup l => l | TCommitSec l => l end.
+
+Definition run_parts (t : task) (parts : list (list key)) (s : list slock) : list slock :=
+  fold_left (fun s p => run_task (restrict_task p t) s) parts s.
+
+Lemma releases_restrict_eq p t l : releases (restrict_task p t) l = releases t l && memk (fst l) p.
+Proof.
+  assert (M : forall ks, memk (fst l) (filter (fun k => memk k p) ks) = memk (fst l) ks && memk (fst l) p).
+  { intros ks. destruct (memk (fst l) (filter (fun k => memk k p) ks)) eqn:E.
+    - apply memk_In in E. apply filter_In in E. destruct E as [E1 E2]. apply memk_In in E1. rewrite E1, E2. auto.
+    - destruct (memk (fst l) ks) eqn:E1; auto. destruct (memk (fst l) p) eqn:E2; auto.
+      apply memk_false in E. exfalso. apply E. apply filter_In. split; [apply memk_In|]; auto. }
+  destruct t as [ks f|ks|ks]; simpl; destruct (snd l); rewrite ?M; auto;
+    destruct (memk (fst l) ks); destruct (memk (fst l) p); simpl; auto; rewrite ?andb_true_r, ?andb_false_r; auto.
+Qed.
+
+Lemma releases_in_keys t l : releases t l = true -> In (fst l) (task_keys t).
+Proof.
+  destruct t as [ks f|ks|ks]; simpl; destruct (snd l); intros H; try discriminate;
+    try (apply andb_true_iff in H; destruct H as [H _]); apply memk_In; auto.
+Qed.
+
+Lemma filter_filter {A} (f g : A -> bool) l : filter f (filter g l) = filter (fun x => g x && f x) l.
+Proof.
+  induction l as [|x l IH]; simpl; auto. destruct (g x); simpl; [destruct (f x); simpl; rewrite IH; auto|auto].
+Qed.
+
+Lemma run_parts_spec t parts s :
+  run_parts t parts s = filter (fun l => negb (releases t l && existsb (fun p => memk (fst l) p) parts)) s.
+Proof.
+  unfold run_parts. revert s. induction parts as [|p r IH]; intros s.
+  - simpl. induction s as [|l s IHs]; simpl; auto. rewrite andb_false_r. simpl. f_equal. auto.
+  - cbn [fold_left]. rewrite IH. unfold run_task. rewrite filter_filter. apply filter_ext. intros l.
+    rewrite releases_restrict_eq. cbn [existsb].
+    destruct (releases t l); destruct (memk (fst l) p); destruct (existsb (fun p0 => memk (fst l) p0) r); reflexivity.
+Qed.
+
+Lemma rebatched_task_equals_whole t parts s :
+  (forall k, In k (task_keys t) -> exists p, In p parts /\ In k p) ->
+  run_parts t parts s = run_task t s.
+Proof.
+  intros Hcov. rewrite run_parts_spec. unfold run_task. apply filter_ext_in. intros l _.
+  destruct (releases t l) eqn:E; simpl; auto.
+  apply releases_in_keys in E. destruct (Hcov _ E) as (p & Hp & Hk).
+  assert (X : existsb (fun p0 => memk (fst l) p0) parts = true).
+  { apply existsb_exists. exists p. split; auto. apply memk_In; auto. }
+  rewrite X. reflexivity.
+Qed.
